@@ -180,6 +180,16 @@ def run(ctx):
       'already has an id, stops the load (concurrent writers)')
     def accepted(x):
         return x['k'] == 'call' and x.get('name') == 'Node::set_id'
+
+    def id_check(a):
+        # `<next id> == <id announced by the checksum>`: one side comes from nodes_.size(), the other from a complement
+        # (whatever the locals are called and wherever the test lives)
+        a = strip(a)
+        if not (isinstance(a, dict) and a.get('k') == 'bin' and a.get('op') == '=='):
+            return False
+        l, r = dstr(deep_resolve(load, a['l'])), dstr(deep_resolve(load, a['r']))
+        sz = lambda t: 'DepsLog::nodes_' in t and 'size()' in t
+        return (sz(l) and '~' in r) or (sz(r) and '~' in l)
     n = 0
     for bid, b in load.blocks.items():
         for i, s in enumerate(b['succ']):
@@ -187,7 +197,7 @@ def run(ctx):
                 continue
             for ef in load.edge_facts(bid, i):
                 k = ef[0].replace(' ', '')
-                if not (('id==expected_id' in k and ef[1] is False) or ('Node::id_<0' in k and ef[1] is False)):
+                if not ((id_check(ef[2]) and ef[1] is False) or ('Node::id_<0' in k and ef[1] is False)):
                     continue
                 n += 1
                 r = load.find_path(None, accepted, from_succ=s, init_facts=[(ef[0], ef[1])],
@@ -199,7 +209,7 @@ def run(ctx):
                     (lastname(x.get('name')) == 'push_back' and mentions_field(x.get('recv'), 'DepsLog::nodes_'))]
     for x in accept_sites:
         fs = load.facts_at(x)
-        ok = fact_holds(fs, lambda a: 'id==expected_id' in dstr(a).replace(' ', ''), True) and \
+        ok = fact_holds(fs, id_check, True) and \
             (fact_holds(fs, lambda a: 'Node::id_<0' in dstr(a).replace(' ', ''), True) or
              any(accepted(y) and y is not x and load.dominates_ev(y, x) for y in accept_sites))  # set_id itself ends "id < 0"
         ctx.check('C09.X2', ok, load.name, 'id-table-updated-before-checks:%s' % lastname(x.get('name')), load.where(x),
@@ -209,12 +219,27 @@ def run(ctx):
         ctx.violation('C09.X2', load.name, 'id-table:sites', load.loc, 'set_id / nodes_.push_back sites missing in Load')
     if n < 2:
         ctx.violation('C09.X2', load.name, 'id-checks:absent', load.loc, 'checksum / duplicate-id tests missing (%d found)' % n)
-    exp = load.single_def('expected_id')
-    ctx.check('C09.X2', exp is not None and dstr(strip(exp)).startswith('(~'), load.name, 'checksum:complement', load.loc,
-              'expected id is the complement of the stored checksum: %s' % dstr(exp))
-    idd = load.single_def('id')
-    ctx.check('C09.X2', idd is not None and 'DepsLog::nodes_.size()' in dstr(idd), load.name, 'id:next', load.loc,
-              'the id of a path record is nodes_.size(): %s' % dstr(idd))
+    # the two sides of that test, resolved through the locals that name them: exactly `~<stored checksum>` and
+    # exactly `nodes_.size()` (nothing added to either)
+    def uncast(d):
+        d = strip(d)
+        while isinstance(d, dict) and d.get('k') in ('cast', 'paren') and d.get('e') is not None:
+            d = strip(d['e'])
+        return d
+    sides = []
+    for bid, b in load.blocks.items():
+        for i, s_ in enumerate(b['succ']):
+            for ef in load.edge_facts(bid, i):
+                if id_check(ef[2]):
+                    a = strip(ef[2])
+                    sides.append((uncast(deep_resolve(load, a['l'])), uncast(deep_resolve(load, a['r']))))
+    comp = [x for pr in sides for x in pr if '~' in dstr(x)]
+    nxt = [x for pr in sides for x in pr if 'DepsLog::nodes_' in dstr(x) and '~' not in dstr(x)]
+    ctx.check('C09.X2', bool(comp) and all(isinstance(x, dict) and x.get('k') == 'un' and x.get('op') == '~' for x in comp), load.name,
+              'checksum:complement', load.loc, 'expected id is the complement of the stored checksum: %s' % sorted({dstr(x)[:60] for x in comp}))
+    ctx.check('C09.X2', bool(nxt) and all(isinstance(x, dict) and x.get('k') == 'call' and lastname(x.get('name')) == 'size' and
+                                          mentions_field(x.get('recv'), 'DepsLog::nodes_') for x in nxt), load.name, 'id:next', load.loc,
+              'the id of a path record is nodes_.size(): %s' % sorted({dstr(x)[:60] for x in nxt}))
     # ids are handed out one per node: RecordId(n) is called only where n->id() < 0 is known for that very n
     # (collecting the nodes first and recording them later gives a node that occurs twice two ids)
     nrid = 0
